@@ -31,11 +31,18 @@ structure RawFacts where
   operators : List (String × String)
   intOps : List (String × String)
   listAddAppendsToReceiver : Bool
+  /-- the sum is `slices.Clip(…)`: its capacity is exactly its length (the model relies on it) -/
+  listAddClips : Bool
   freezeWraps : String
   sortedArg : String
   reversedArg : String
   constantFoldsLists : Bool
   listSlice : String
+  /-- per native builtin: name, Go function, the Go types it asserts on its arguments, whether it unwraps the
+      frozen variants itself (harness/extract/c18) -/
+  natives : List (String × String × List String × Bool)
+  /-- how `==` compares (`reflect.DeepEqual` today) -/
+  equalVia : String
 
 def factsOf (r : RawFacts) : Facts where
   prec := precOf r.precTable r.precDefault
@@ -46,6 +53,10 @@ def factsOf (r : RawFacts) : Facts where
   freezeKeepsElems := r.freezeWraps == "receiver"
   addAppends := r.listAddAppendsToReceiver
   sliceShares := r.listSlice == "reslice"
+  frozenOK := fun name =>
+    match r.natives.find? (·.1 == name) with
+    | some (_, _, asserted, unwraps) => unwraps || !asserted.contains "pyList"
+    | none => false
 
 /-- The surface token of every operator the model knows, as the parser's `operators` map must have it. -/
 def expectedTokens : List (String × String) :=
